@@ -26,7 +26,7 @@ META = {
     ],
     "bounds": {
         "quick": "slice arithmetic: <=6 parameter sets with symbolic sizes; family F + 12 seeded shapes with full override sets; all permutations of channel / sample / modifier / measurement-parameter / observation lists of length <=3 (one list kind at a time, plus everything reversed)",
-        "thorough": "as quick with 100 seeded shapes",
+        "thorough": "as quick with 250 seeded shapes",
     },
     "stubs": [],
     "outside_claim": ["names containing '/'", "symbolic names (N-engine part is reported under C16/C17/C20)", "patches argument of Workspace.model"],
@@ -37,7 +37,7 @@ DEFAULTS = {"histosys": (0.0, (-5.0, 5.0)), "normsys": (0.0, (-5.0, 5.0)), "norm
 
 
 def _family(tier, seed):
-    return shapes.family_core() + shapes.family_plus(seed, 12 if tier == "quick" else 100)
+    return shapes.family_core() + shapes.family_plus(seed, 12 if tier == "quick" else 250)
 
 
 def items(tier, seed):
